@@ -72,7 +72,10 @@ def graph_rewrite(t):
                 f = strip(ev[2][0]) if ev[2] else None
                 if head(f) == "fstr" and len(f[1]) == 2 and is_const(f[1][0], "g.community_") and f[1][1][0] == "fmt" and not x[2] and len(x[3]) == 1 and x[3][0][0] == "**":
                     forms.add(as_c)
-                    args = (f[1][1][1], x[3][0][1])
+                    kwv = strip(x[3][0][1])
+                    if head(kwv) == "dmerge" and len(kwv[1]) == 1 and kwv[1][0][0] == "ref":
+                        kwv = kwv[1][0][1]
+                    args = (f[1][1][1], kwv)
                     continue
             return t
         if forms == {True, False} and args:
@@ -90,7 +93,7 @@ def run(r):
     rep.floor("C15-PURE", 6)
     rw = std_rewrites(ident=("numpy.asarray", "numpy.array")) + [canon_binders]
     compare_function(r, "C15-PIPE", "pyrepseq.distance.hierarchical_clustering", SPEC, "hierarchical_clustering returns (linkage of the metric's condensed distances, fcluster of that linkage), default metric as in pcDelta",
-                     eq=Equiv(rewrites=rw, modelled={"scipy.cluster.hierarchy.linkage", "scipy.cluster.hierarchy.fcluster"}), key="hierarchical pipeline")
+                     eq=Equiv(rewrites=rw, modelled={"scipy.cluster.hierarchy.linkage", "scipy.cluster.hierarchy.fcluster", ".calc_pdist_vector", ".calc_cdist_matrix"}), key="hierarchical pipeline")
     q = "pyrepseq.clustering.graph_clustering"
     s = r.A.summary(q)
     pn = [p[0] for p in s.params]
